@@ -621,6 +621,7 @@ func c02(p *model.Prog, r *report.Result) {
 	w5HevcKey(p, r, "C02.R11")
 	w7AacSeqHeaderCodec(p, r, "C02.R12")
 	w7HevcCacheSets(p, r, "C02.R13")
+	w8CacheResetWithRefill(p, r, "C02.R14")
 	c16r10(p, r, "C02.R8")
 	c02r9(p, r)
 	c02r10(p, r)
